@@ -179,8 +179,23 @@ def o182(ctx):
                     "(R_a^-1 (p_nn - p_a)); this is what makes it invariant under a rigid motion of the tomogram", rc[0].node, m)
     dterm = no_sel(to_term(nd[0].args[1]))
     ctx.count(1, {"distance": tm.show(dterm)[:120]})
-    okd = dterm.op == "mul" and dterm.args[1] == px and tm.has_call(dterm.args[0], ".query") and dterm.args[0].op == "call" and dterm.args[0].args[0] == "column"
+    SHAPE_ = ("column", "transposed", ".reshape", "numpy.reshape", "numpy.ravel", ".ravel", ".flatten", "numpy.transpose", ".transpose", "numpy.asarray", "numpy.array")
+
+    def strip_shape(t_):
+        while t_.op == "call" and str(t_.args[0]) in SHAPE_ and len(t_.args) >= 2:
+            t_ = t_.args[1]
+        return t_
+
+    def tree_distances(t_):
+        t_ = strip_shape(t_)
+        return t_.op == "call" and t_.args[0] == "unpack" and tm.has_call(t_.args[1], ".query") and tm.cval(t_.args[2]) == 0
+
+    core = strip_shape(dterm)
+    okd = core.op == "mul" and ((core.args[1] == px and tree_distances(core.args[0])) or (core.args[0] == px and tree_distances(core.args[1])))
     if not okd:
+        if tm.has_sym(dterm, "pixel_size") and tm.has_call(dterm, ".query") and not tm.contains(dterm, lambda n: n.op in ("add", "sub", "div", "pow", "sqrt")) \
+                and sum(1 for n in tm.walk(dterm) if n == px) == 1 and not (core.op == "mul"):
+            raise Unsupported(f"the reported distance is derived from the tree distances and pixel_size in a form the rule does not follow: {tm.show(dterm)[:100]}", nd[0].node)
         ctx.finding(q, nd[0].node, "the reported distance must be the tree distance of that neighbour times pixel_size", nd[0].node, m)
     at = to_term(ad[0].args[1])
     ctx.count(1)
@@ -292,6 +307,19 @@ def o183(ctx):
     r = it.run(q, [P("motl_a"), P("motl_nn")], {})
     if not isinstance(r.ret, Frame):
         raise Unsupported("get_nn_stats does not return a table", fn)
+    # both passes run on the two lists the caller gave (loaded if given as files), the query list first: not on lists derived from them
+    # (merged, renumbered, filtered, re-sorted) -- the table reports the caller's subtomogram numbers
+    for e in [e for e in it.events if e.kind == "call" and e.name in ("cryocat.nnana.get_nn_distances", "cryocat.nnana.get_nn_rotations") and e.fn == q]:
+        for k_, want_ in ((0, "motl_a"), (1, "motl_nn")):
+            a_ = e.arg(k_)
+            t_ = to_term(a_) if a_ is not None else None
+            ctx.count(1)
+            while t_ is not None and t_.op == "call" and str(t_.args[0]) in ("cryocat.cryomotl.Motl.load", "load") and len(t_.args) >= 2:
+                t_ = t_.args[1]
+            if t_ != sym(want_):
+                ctx.finding(q, e.node, f"{e.name.split('.')[-1]} is not run on the caller's {'query' if k_ == 0 else 'neighbour'} list `{want_}` but on "
+                            f"{tm.show(to_term(a_))[:80] if a_ is not None else None}: a list derived from it (merged, renumbered, filtered) reports other "
+                            "subtomogram numbers / other particles than the caller's", e.node, m)
     same_rows_same_order(ctx, q, r.ret, src, "get_nn_stats lists the neighbours of each particle in the order of the search (ascending distance)", fn, m)
     want = {"distance": "nn_dist", "angular_distance": "ang", "subtomo_idx": "sid", "subtomo_nn_idx": "sidnn"}
     for pre, names in (("cc", ("coord_x", "coord_y", "coord_z")), ("rc", ("coord_rx", "coord_ry", "coord_rz")), ("rot", ("rot_x", "rot_y", "rot_z")),
